@@ -677,6 +677,9 @@ def riscv_imm_patterns(ctx):
 # riscv prologue / epilogue: stack discipline
 # ------------------------------------------------------------------------------------------------
 
+RV_PSABI_CALLEE_SAVED = [9, 18, 19, 20, 21, 22, 23, 24, 25, 26, 27]     # s1, s2..s11 (Spec.RVABI.calleeSaved without s0 = fp)
+
+
 def _encode_list(items):
     """bytes of the encodable instructions of a prologue/epilogue list, up to and including the return"""
     from ppci.arch.generic_instructions import ArtificialInstruction
@@ -707,14 +710,17 @@ def riscv_frames(ctx):
     reqs, meta = [], []
     for march in ("riscv", "riscv:rvc"):
         arch = get_arch(march)
-        cs = list(arch.callee_save)
+        # callee-saved BY CONVENTION (RISC-V psABI s1, s2..s11; s0 = fp is handled by the prologue itself) - not arch.callee_save
+        cs = [getattr(R, f"R{n}") for n in RV_PSABI_CALLEE_SAVED]
         others = [R.R10, R.R11, R.R12, R.R5, R.R6, R.R28]
         used_sets = [[], [cs[0]], [cs[1]], [cs[0], cs[1]], [cs[-1]], cs[:4], cs, [cs[2], cs[5], others[0]], others[:3]]
+        used_sets += [[r] for r in cs]            # every callee-saved register on its own
         for _ in range(60 if ctx.thorough else 10):
             used_sets.append(rng.sample(cs, rng.randint(1, len(cs))) + rng.sample(others, rng.randint(0, 3)))
         stacks = [0, 1, 4, 7, 8, 9, 16, 24, 40, 100, 500, 1000, 1900]
         outs = [[], [4], [8], [16], [4, 12], [40], [100], [12, 4, 8]]
         combos = [(u, st, oc) for u in used_sets[:9] for st in (0, 8, 24) for oc in outs[:5]]
+        combos += [([r], st, oc) for r in cs for st, oc in ((0, []), (8, [8]))]
         for _ in range(600 if ctx.thorough else 80):
             combos.append((rng.choice(used_sets), rng.choice(stacks), rng.choice(outs)))
         for used, st, oc in combos:
@@ -729,13 +735,15 @@ def riscv_frames(ctx):
             except Exception as e:  # noqa
                 ctx.fail(f"riscv-frame:{march}:raises", f"gen_prologue/gen_epilogue raised {type(e).__name__}: {e}", case)
                 continue
-            saved = [r.num for r in cs if r in frame.used_regs]
+            saved = [r.num for r in arch.callee_save if r in frame.used_regs]      # what the code saves (model correspondence)
+            must = [r.num for r in cs if r in frame.used_regs]                     # what the convention says must survive (property)
             extras = max(oc) if oc else 0
             regs = ",".join(map(str, saved)) or "-"
             reqs.append(f"rvframe {st} {extras} {regs}")
             reqs.append(f"decx {pro.hex()}")
             reqs.append(f"decx {epi.hex()}")
-            reqs.append(f"rvframerun {pro.hex()} {epi.hex()} {rup(st + 8)} {rup(4 * len(saved))} {rup(extras) if extras else 0} {regs}")
+            reqs.append(f"rvframerun {pro.hex()} {epi.hex()} {rup(st + 8)} {rup(4 * len(saved))} {rup(extras) if extras else 0} "
+                        + (",".join(map(str, must)) or "-"))
             meta.append((march, case, len(saved), extras))
 
     def finish(out):
